@@ -162,6 +162,7 @@ type PathResult struct {
 	Asserts  []AssertOutcome
 	Reached  map[string]bool
 	Alts     [][]uint64
+	AltModels []map[string]uint64
 	Funcs    map[*ssa.Function]bool
 	Steps    int
 	Queries  int
@@ -205,15 +206,16 @@ func (g *Engine) newExec(s *Solver, cfg *HarnessCfg, prefix []uint64) *Exec {
 		funcs: map[*ssa.Function]bool{}, uniq: map[string]*Loc{}, hidden: map[*Loc]Value{}, backing: map[*Loc]backRef{}}
 }
 
-func (g *Engine) runPath(s *Solver, fn *ssa.Function, cfg *HarnessCfg, prefix []uint64, wantSample bool, pin []uint64) *PathResult {
+func (g *Engine) runPath(s *Solver, fn *ssa.Function, cfg *HarnessCfg, prefix []uint64, pm map[string]uint64, wantSample bool, pin []uint64) *PathResult {
 	e := g.newExec(s, cfg, prefix)
+	e.prefixModel = pm
 	e.pin = pin
 	end := e.runHarness(fn)
 	if e.di < len(e.prefix) && end.kind != EndInfeasible {
 		// the prefix was not consumed: non-deterministic replay
 		end = pathEnd{EndUnsupported, fmt.Sprintf("decision prefix not consumed (%d of %d): %s", e.di, len(e.prefix), end.msg)}
 	}
-	r := &PathResult{End: end, Asserts: e.asserts, Reached: e.reached, Alts: e.alts, Funcs: e.funcs, Steps: e.steps,
+	r := &PathResult{End: end, Asserts: e.asserts, Reached: e.reached, Alts: e.alts, AltModels: e.altModels, Funcs: e.funcs, Steps: e.steps,
 		Queries: e.nQueries, Spawned: e.spawned, Trace: e.trace, OKAssert: e.nAssertOK, Knowns: e.knowns}
 	if (end.kind == EndOK || end.kind == EndHalt) && (wantSample || pin != nil) {
 		r.Sample = e.sample(end.kind)
@@ -231,7 +233,11 @@ func (g *Engine) Explore(name string, cfg HarnessCfg, workers int, nSamples int,
 		ViolCount: map[string]int{}, Reached: map[string]bool{}, Funcs: map[*ssa.Function]bool{}, Spawned: map[string]bool{}, Knowns: map[string]int{}}
 	var mu sync.Mutex
 	cond := sync.NewCond(&mu)
-	work := [][]uint64{{}}
+	type workItem struct {
+		p []uint64
+		m map[string]uint64
+	}
+	work := []workItem{{}}
 	active := 0
 	started := 0
 	var wg sync.WaitGroup
@@ -276,7 +282,7 @@ func (g *Engine) Explore(name string, cfg HarnessCfg, workers int, nSamples int,
 				wantSample := len(res.Samples) < nSamples
 				mu.Unlock()
 
-				r := g.runPath(s, fn, &cfg, p, wantSample, nil)
+				r := g.runPath(s, fn, &cfg, p.p, p.m, wantSample, nil)
 
 				mu.Lock()
 				active--
@@ -318,7 +324,9 @@ func (g *Engine) Explore(name string, cfg HarnessCfg, workers int, nSamples int,
 				if len(res.SamplePaths) < 3 {
 					res.SamplePaths = append(res.SamplePaths, r.Trace)
 				}
-				work = append(work, r.Alts...)
+				for i, a := range r.Alts {
+					work = append(work, workItem{a, r.AltModels[i]})
+				}
 				mu.Unlock()
 				cond.Broadcast()
 			}
